@@ -208,6 +208,9 @@ def execModel (w : World) (toks : List String) (hint : String) : World × String
     (setP w k (garbageParser md.toNat! (flagsOfWord f0)), s!"P {md} f{f0}")
   | ["I", t, hx] =>
     withP fun p => let r := init p (parseHex hx) (if t == "a" then 2 else 1); (setP w k r.1, pobs r.1 (toString r.2.toNat) 0)
+  | ["B", hx] => withP fun p =>
+      let nb := parseHex hx
+      if nb.size == p.buf.size && p.buf.size == p.size then (setP w k { p with buf := nb }, "B ok") else (w, "B size-mismatch")
   | ["r"] => boolOp fun p => let r := reset p; (r.1, r.2, 0)
   | ["v"] => boolOp fun p => let r := verify p; (r.1, r.2.1, r.2.2.length)
   | ["n"] => boolOp nextC
@@ -669,6 +672,11 @@ def oracleStep (o : OState) (toks : List String) (impl : String) : OState :=
     writerOracle o k toks impl else
   if op == "P" then
     setPO o { md := (toks.getD 1 "0").toNat! } else
+  if op == "B" then
+    (if impl == "B ok" then
+      let doc := parseHex (toks.getD 1 "-")
+      setPO o { po with doc := doc, value := decodeDoc po.root po.md doc.toList, cursor := none }
+     else o) else
   if op == "tr" then
     -- C10: transcription reproduces the input byte for byte
     (match po.value, toks, impl.splitOn " " with
